@@ -15,6 +15,65 @@ Definition report (o : op) (oc : outcome) : res :=
 Lemma complete_out s o : out (complete s o) = Some o.
 Proof. reflexivity. Qed.
 
+(* ---- the notification loop (EventHook.safe_trigger over a copy of the handler list) ---- *)
+
+(* the callback records produced by notifying [l] with outcome [oc] *)
+Definition notes (l : list sub) (oc : outcome) : list (Z * outcome) :=
+  map (fun sb => (fst sb, oc)) l.
+
+(* the live subscription list after notifying the subscribers that were registered in [l] *)
+Definition after_notify (l : list sub) : list sub := fst (notify l l).
+
+(* T4a: the loop calls exactly the subscribers of the snapshot, each once, in order - WHATEVER the
+   subscribers do to the live list meanwhile (unsubscribe themselves, a later or an earlier one,
+   subscribe new ones, raise) and whatever the live list is *)
+Lemma notify_snapshot snap : forall live, snd (notify snap live) = map fst snap.
+Proof.
+  induction snap as [|sb snap IH]; intros live; cbn; auto.
+  specialize (IH (fst (run_cb (snd sb) live))).
+  destruct (notify snap (fst (run_cb (snd sb) live))) as [l2 called]. cbn in *. now rewrite IH.
+Qed.
+
+Lemma complete_log s o : log (complete s o) = log s ++ notes (subs s) o.
+Proof. cbn. unfold notes. now rewrite notify_snapshot, map_map. Qed.
+
+Lemma complete_subs s o : subs (complete s o) = after_notify (subs s).
+Proof. reflexivity. Qed.
+
+Definition plain (k : cbkind) : bool := match k with CbOk | CbRaise => true | _ => false end.
+
+(* subscribers that only return or raise leave the subscription list as it was *)
+Lemma notify_plain snap : forall live,
+  forallb (fun sb => plain (snd sb)) snap = true -> fst (notify snap live) = live.
+Proof.
+  induction snap as [|[id k] snap IH]; intros live H; cbn in *; auto.
+  apply andb_true_iff in H as [Hk H].
+  assert (E : fst (run_cb k live) = live) by (destruct k; cbn in *; auto; discriminate).
+  rewrite E. specialize (IH live H). destruct (notify snap live). cbn in *. exact IH.
+Qed.
+
+(* a subscriber's call only acts on the live list: what it subscribes goes to the end, what it
+   unsubscribes is one registered entry of that id *)
+Lemma remove_first_spec t l l' : remove_first t l = Some l' ->
+  exists a k b, l = a ++ (t, k) :: b /\ l' = a ++ b /\ forall x, In x a -> fst x <> t.
+Proof.
+  revert l'. induction l as [|[i k] r IH]; intros l' H; cbn in *; try discriminate.
+  destruct (Z.eqb i t) eqn:E.
+  - apply Z.eqb_eq in E. subst. inversion H; subst. exists [], k, l'. repeat split; auto; intros x [].
+  - destruct (remove_first t r) as [r'|]; try discriminate. inversion H; subst.
+    destruct (IH r' eq_refl) as (a & k' & b & E1 & E2 & E3). subst.
+    exists ((i, k) :: a), k', b. repeat split; auto.
+    intros x [Hx|Hx]; [subst; cbn; now apply Z.eqb_neq|auto].
+Qed.
+
+Lemma remove_first_none t l : remove_first t l = None -> forall x, In x l -> fst x <> t.
+Proof.
+  induction l as [|[i k] r IH]; intros H x Hx; cbn in *; [contradiction|].
+  destruct (Z.eqb i t) eqn:E; try discriminate.
+  destruct (remove_first t r); try discriminate.
+  destruct Hx as [Hx|Hx]; [subst; cbn; now apply Z.eqb_neq|auto].
+Qed.
+
 (* a setter on a computed future raises FutureIsAlreadyComputed and changes nothing *)
 Lemma single_assignment s oc :
   out s = Some oc ->
@@ -79,7 +138,7 @@ Proof.
 Qed.
 
 Ltac cases_step :=
-  cbn; unfold read, compute, with_run, complete;
+  cbn; unfold read, compute, with_run;
   repeat (match goal with
   | |- context [match out ?s with _ => _ end] => destruct (out s) eqn:?
   | |- context [match fkind ?s with _ => _ end] => destruct (fkind s) eqn:?
@@ -101,20 +160,39 @@ Qed.
 Lemma notify_once_after s o :
   let s' := fst (step s o) in
   match out s, out s' with
-  | None, Some oc => log s' = log s ++ map (fun sb => (fst sb, oc)) (subs s)
+  | None, Some oc => log s' = log s ++ notes (subs s) oc /\ subs s' = after_notify (subs s)
   | _, _ => log s' = log s
   end.
 Proof.
   destruct o; cases_step; try reflexivity; try congruence;
     repeat match goal with H : Some _ = Some _ |- _ => inversion H; subst; clear H end;
-    try reflexivity; try congruence.
+    try reflexivity; try congruence;
+    unfold notes, after_notify; rewrite notify_snapshot, map_map; auto.
 Qed.
 
-(* subscribers are never lost or duplicated by a step (only OSubscribe appends one) *)
+(* the subscription list changes only by OSubscribe (appends one) and by the subscribers' own
+   actions during the notification of a completion *)
 Lemma subs_step s o :
-  subs (fst (step s o)) = subs s \/ exists id k, o = OSubscribe id k /\ subs (fst (step s o)) = subs s ++ [(id, k)].
+  subs (fst (step s o)) = subs s \/
+  (exists id k, o = OSubscribe id k /\ subs (fst (step s o)) = subs s ++ [(id, k)]) \/
+  (out s = None /\ out (fst (step s o)) <> None /\ subs (fst (step s o)) = after_notify (subs s)).
 Proof.
-  destruct o; cases_step; eauto.
+  destruct o; cases_step; auto;
+    try (right; left; do 2 eexists; split; reflexivity);
+    right; right; repeat split; auto; discriminate.
+Qed.
+
+(* two completions separated by reset_unsafe: the first notifies the subscribers registered then,
+   the second exactly those the first notification left registered *)
+Lemma renotify_after_reset s v e :
+  out s = None ->
+  let s1 := fst (step s (OSetValue v)) in
+  let s3 := fst (step (fst (step s1 OReset)) (OSetError e)) in
+  log s3 = log s ++ notes (subs s) (Ok v) ++ notes (after_notify (subs s)) (Err e) /\
+  subs s3 = after_notify (after_notify (subs s)).
+Proof.
+  intros H. cbn. rewrite H. cbn. unfold notes, after_notify.
+  rewrite !notify_snapshot, !map_map, <- app_assoc. auto.
 Qed.
 
 (* T5: ConstFuture / ErrorFuture are complete from construction *)
@@ -127,3 +205,14 @@ Example stable_nonvacuous :
   let s := fst (step (init KLazy [PRaise 7] (Ok VNone)) OError) in
   out s = Some (Err 7) /\ snd (run s [OError; OValue; OIsComputed]) = [RErr 7; RRaise 7; RBool true].
 Proof. split; reflexivity. Qed.
+
+(* non-vacuity of the re-entrant part: a one-shot subscriber in first position, a plain one, one
+   that subscribes 4 and then drops the already notified 2; everybody registered at the completion
+   is called once, 4 is not; the next completion (after reset_unsafe) goes over what they left *)
+Example reentrant_nonvacuous :
+  run_case KLazy [PRet (VInt 42); PRaise 9] (Ok VNone)
+    [OSubscribe 1 (CbUnsub 1); OSubscribe 2 CbOk; OSubscribe 3 (CbSeq (CbSub 4 CbRaise) (CbUnsub 2));
+     OValue; OReset; OError]
+  = ([RUnit; RUnit; RUnit; RVal (VInt 42); RUnit; RErr 9],
+     [(1, Ok (VInt 42)); (2, Ok (VInt 42)); (3, Ok (VInt 42)); (3, Err 9); (4, Err 9)], 2, [3; 4; 4]).
+Proof. reflexivity. Qed.
